@@ -228,7 +228,15 @@ def genPlay (seed n : Nat) (rootsFile : String) : IO Unit := do
   let roots ← readLines rootsFile
   let out ← IO.getStdout
   let mut r := Rng.ofSeed (seed + 17)
-  let starts := genPositions seed n roots
+  let mut starts := genPositions seed n roots
+  -- positions with an en-passant target / castling rights / promotions ahead
+  let mut tr := Rng.ofSeed (seed + 19)
+  for _ in List.range (n / 3) do
+    let (t1, p) := templatePos tr
+    tr := t1
+    match p with
+    | some p => starts := p :: starts
+    | none => pure ()
   for p in starts do
     let (r1, len) := r.below 40
     let (r2, withNulls) := r1.below 3
@@ -241,7 +249,7 @@ def genPlay (seed n : Nat) (rootsFile : String) : IO Unit := do
     for _ in List.range (len + 1) do
       let (r3, choice) := r.below 10
       r := r3
-      if choice < 2 && !stack.isEmpty then
+      if (choice < 2 || (lastNull && choice < 7)) && !stack.isEmpty then
         match stack with
         | (prev, wasNull) :: tl =>
           ops := (if wasNull then "undonull" else "undo") :: ops
@@ -249,7 +257,8 @@ def genPlay (seed n : Nat) (rootsFile : String) : IO Unit := do
           stack := tl
           lastNull := match tl with | (_, wn) :: _ => wn | [] => false
         | [] => pure ()
-      else if choice == 2 && withNulls == 0 && !lastNull && !(Rules.inCheck cur.board cur.player) then
+      else if ((choice == 2 && withNulls == 0) || (cur.ep.isSome && choice < 7 && withNulls != 2))
+          && !lastNull && !(Rules.inCheck cur.board cur.player) then
         stack := (cur, true) :: stack
         cur := { cur with player := cur.player.other, ep := none, plies := cur.plies + 1 }
         ops := "null" :: ops
